@@ -222,6 +222,49 @@ func Pairs() []Pair {
 	return out
 }
 
+// Triples adds the three-level families that the pair table cannot show: a command-style call
+// whose first argument is a unary operator over a unary or star operand (`f - -x`), and an
+// ErrWrap ! or ? under a unary, star or binary operator in a slot that is followed by ':'.
+func Triples() []Pair {
+	var out []Pair
+	ops := append(append([]string{}, UnaryOps...), "*")
+	mk := func(op string, x *Spec) *Spec {
+		if op == "*" {
+			return n("Star", "", x)
+		}
+		return n("Unary", op, x)
+	}
+	for _, o1 := range ops {
+		for _, o2 := range ops {
+			for _, more := range []bool{false, true} {
+				call := n("CmdCall", "", leaf("f"), mk(o1, mk(o2, leaf("x"))))
+				if more {
+					call.C = append(call.C, leaf("y"))
+				}
+				out = append(out, Pair{Tree: n("ExprStmt", "", call), Parent: "CmdCall", Slot: "Args", Child: "Unary(" + o1 + ")>Unary(" + o2 + ")"})
+			}
+		}
+	}
+	for _, ew := range []string{"!", "?"} {
+		for _, wrap := range []func(*Spec) *Spec{
+			func(x *Spec) *Spec { return n("Unary", "-", x) },
+			func(x *Spec) *Spec { return n("Star", "", x) },
+			func(x *Spec) *Spec { return n("Binary", "+", leaf("p"), x) },
+			func(x *Spec) *Spec { return n("Binary", "&&", leaf("p"), n("Unary", "!", x)) },
+		} {
+			x := func() *Spec { return wrap(n("ErrWrap", ew, leaf("e"))) }
+			for _, tree := range []*Spec{
+				n("Slice", "", leaf("a"), x(), nil), n("Slice", "", leaf("a"), x(), leaf("h")), nf("Slice", 1, "", leaf("a"), leaf("l"), x(), leaf("m")),
+				n("Switch", "", nil, n("Case", "", leaf("c"), x())), n("Compr", "{", n("KeyValue", "", x(), leaf("v")), nf("For", 0, "k,v", leaf("m"))),
+				n("Composite", "", nil, n("KeyValue", "", x(), leaf("v"))),
+			} {
+				out = append(out, Pair{Tree: tree, Parent: tree.K, Slot: "right-edge", Child: "ErrWrap(" + ew + ")"})
+			}
+		}
+	}
+	return out
+}
+
 // ---- random trees ----------------------------------------------------------------------------
 
 // Config steers the random generators. Avoid (may be nil) vetoes a child for a slot: the
